@@ -4,16 +4,11 @@
  "standin": "B-drivers",
  "bound": "6 (quick) / 8 (thorough) small projects without externals x 3 (quick) / 16 (thorough) category subsets: Example.run_inline vs Example.run_pytest vs raw pytest subprocess (changed files as text) and run_inline's reported categories vs the headers of a `--inline-snapshot=<F>,report` session",
  "input": {
-  "project": "a fix whose only textual effect is trailing whitespace",
-  "flags": [
-   "create",
-   "fix",
-   "trim",
-   "update"
-  ],
+  "project": "nested containers",
+  "flags": [],
   "driver": "inline"
  },
- "detail": "C19: changed files of Example.run_inline differ from the raw pytest session: different sets of changed files: ['test_something.py'] vs []\n--- run_inline None:\nNone\n--- raw pytest None:\nNone"
+ "detail": "C19: run_inline reported categories ['fix'] but the report session lists ['create', 'fix']\n__________________________________ test_dict ___________________________________\n\n    def test_dict():\n>       assert {\"a\": 1, \"c\": [29, 2]} == snapshot({\"a\": 2, \"b\": 3})\nE       AssertionError: assert {'a': 1, 'c': [29, 2]} == {'a': 2, 'b': 3}\nE         \nE         Differing items:\nE         {'a': 1} != {'a': 2}\nE         Left contains 1 more item:\nE         {'c': [29, 2]}\nE         Right contains 1 more item:\nE         {'b': 3}\nE         Use -v to get more diff\n\ntest_something.py:9: AssertionError\n==================================== PASSES ====================================\n------------ generated xml file: /tmp/bsess-out-yufay4ju/junit.xml -------------\n=========================== short test summary info ============================\nPASSED test_something.py::test_tuple\nERROR test_something.py::test_list - Failed: some snapshots in this test have...\nERROR test_something.py::test_dict - Failed: some snapshots in this test have...\nERROR test_something.py::test_tuple - Failed: your snapshot is missing one va...\nFAILED test_something.py::test_list - assert [1, 2, 3, 29] == [1, 3, 5]\nFAILED test_something.py::test_dict - AssertionError: assert {'a': 1, 'c': [2...\n==================== 2 failed, 1 passed, 3 errors in 2.45s ====================="
 }
 """
 
@@ -86,8 +81,8 @@ ROOT = tempfile.mkdtemp()
 PROJ = os.path.join(ROOT, "proj")
 os.mkdir(PROJ)
 try:
-    FILES = {'test_something.py': 'from inline_snapshot import snapshot\n\n\ndef test_trailing_blanks():\n    assert "first\\nsecond\\n" == snapshot("""\\\nfirst  \nsecond\n""")\n', 'pyproject.toml': '[tool.inline-snapshot]\n'}
-    FLAGS = ['--inline-snapshot=create,fix,trim,update']
+    FILES = {'test_something.py': 'from inline_snapshot import snapshot\n\n\ndef test_list():\n    assert [1, 2, 3, 29] == snapshot([1, 3, 5])\n\n\ndef test_dict():\n    assert {"a": 1, "c": [29, 2]} == snapshot({"a": 2, "b": 3})\n\n\ndef test_tuple():\n    assert (1, "hello") == snapshot()\n', 'pyproject.toml': '[tool.inline-snapshot]\n'}
+    FLAGS = []
     write(PROJ, FILES)
     r = session(PROJ, FLAGS)
     raw = {k: v.decode() for k, v in r['after'].items() if FILES.get(k) != v.decode()}
@@ -107,7 +102,7 @@ try:
     assert cp.value == raw, 'run_pytest differs from raw session'
     assert ci.value == raw, 'run_inline differs from raw session'
     P2 = os.path.join(ROOT, 'p2'); os.mkdir(P2); write(P2, FILES)
-    rep = session(P2, ['--inline-snapshot=' + ','.join(['create', 'fix', 'trim', 'update', 'report'])])
+    rep = session(P2, ['--inline-snapshot=' + ','.join(['report'])])
     listed = sorted(c for c, h in {'create': 'Create snapshots', 'fix': 'Fix snapshots', 'trim': 'Trim snapshots', 'update': 'Update snapshots'}.items() if h in rep['out'])
     assert cc.value == listed, (cc.value, listed)
 finally:
